@@ -215,13 +215,13 @@ Proof.
   destruct (Nat.eqb j i) eqn:E.
   - apply Nat.eqb_eq in E. subst j. rewrite wrun_cons. cbn [fst].
     destruct (wstep_same w1 w2 i o Hm) as [Hs _].
-    apply IH; [exact Hs| |intros j' o' Hin; apply Hp; right; exact Hin].
+    apply IH; [exact Hs| |intros j' o' Hin Hne; apply (Hp j' o'); [right; exact Hin|exact Hne]].
     destruct (writes_mirror o) eqn:Ew; [apply wstep_own_cell; assumption|].
     destruct o as [| [|c cs] | | |]; try discriminate; cbn; try exact Hg.
     (* WDirect [] : no imb_set_errno call at all *)
     rewrite !upd_cell_same. unfold Globals.emem_of. cbn. exact Hg.
   - apply Nat.eqb_neq in E.
-    apply IH; [rewrite wstep_other by auto; exact Hm| |intros j' o' Hin; apply Hp; right; exact Hin].
+    apply IH; [rewrite wstep_other by auto; exact Hm| |intros j' o' Hin Hne; apply (Hp j' o'); [right; exact Hin|exact Hne]].
     rewrite wstep_cell_other; [exact Hg|]. intros C. apply (Hp j o (or_introl eq_refl) E). symmetry. exact C.
 Qed.
 
